@@ -176,7 +176,9 @@ pub fn style_of(sel: u8) -> Style {
 
 pub fn generic_env_formula(raw: &RawF) -> F {
     let props: Vec<String> = ["p", "q", "a1", "EXp", "v_1"].iter().map(|s| s.to_string()).collect();
-    let labels: Vec<String> = gen::LABELS.iter().map(|s| s.to_string()).collect();
+    // wild-card / domain labels: the shared pool plus names that coincide with the spellings of
+    // the constants, a number and an internal variable name (any name over [A-Za-z0-9_] is a label)
+    let labels: Vec<String> = gen::LABELS.iter().copied().chain(["0", "True", "false", "x"]).map(|s| s.to_string()).collect();
     let env = FEnv {
         props: &props,
         labels: &labels,
